@@ -7,6 +7,7 @@ import (
 // Additional models (context, xrand, misc).
 func (i *interpreter) registerExtraModels() {
 	i.registerPromModels()
+	i.registerSortModels()
 	i.addModel("context.WithValue", "real valueCtx node; key comparability decided by go/types (the real code asks reflectlite)", func(fr *frame, a []value) value {
 		parent := a[0].(iface)
 		key := a[1].(iface)
@@ -128,4 +129,66 @@ func (i *interpreter) registerPromModels() {
 		return tuple{&cell, iface{}}
 	})
 	i.addModel("github.com/samber/ro/ee/pkg/license.IsEnterpriseEnabled", "no licence installed", func(fr *frame, a []value) value { return false })
+}
+
+// ---------------------------------------------------------------------------
+// sort.Slice / sort.SliceStable contract stubs (C18): the result is ANY
+// permutation of the input that is sorted w.r.t. less (every such permutation
+// is explored as a separate path, n <= 4); SliceStable additionally keeps the
+// original order of elements that less does not order.
+
+func permutations(n int) [][]int {
+	if n == 0 {
+		return [][]int{{}}
+	}
+	var out [][]int
+	for _, p := range permutations(n - 1) {
+		for pos := 0; pos <= len(p); pos++ {
+			q := append(append(append([]int{}, p[:pos]...), n-1), p[pos:]...)
+			out = append(out, q)
+		}
+	}
+	return out
+}
+
+func (i *interpreter) registerSortModels() {
+	mk := func(stable bool) modelFn {
+		return func(fr *frame, a []value) value {
+			r := fr.t.r
+			sl, ok := a[0].(iface).v.([]value)
+			if !ok {
+				panic(unsupported("sort.Slice on a non-slice"))
+			}
+			n := len(sl)
+			if n <= 1 {
+				return nil
+			}
+			if n > 4 {
+				panic(unsupported("sort.Slice stub: more than 4 elements"))
+			}
+			perms := permutations(n)
+			p := perms[r.decide("sortperm", len(perms))]
+			orig := make([]value, n)
+			for k := range sl {
+				orig[k] = copyVal(sl[k])
+			}
+			for k := range sl {
+				sl[k] = orig[p[k]]
+			}
+			less := func(x, y int) bool {
+				return r.truth(call(fr.i, fr, 0, a[1], []value{x, y}), "less")
+			}
+			for k := 0; k+1 < n; k++ {
+				if less(k+1, k) {
+					r.abort(outcomeAssumeFalse, "") // not a sorted permutation
+				}
+				if stable && p[k] > p[k+1] && !less(k, k+1) {
+					r.abort(outcomeAssumeFalse, "") // ties must keep their original order
+				}
+			}
+			return nil
+		}
+	}
+	i.addModel("sort.Slice", "contract stub: any permutation sorted w.r.t. less (all explored, n<=4)", mk(false))
+	i.addModel("sort.SliceStable", "contract stub: the stable sorted permutation (n<=4)", mk(true))
 }
